@@ -1,5 +1,9 @@
 import Driver.Common
-/-! Driver of the `buffer` family (stub: no stream yet). -/
+import Driver.Buffer
+/-! Driver of the `buffer` family: streams `buf` (C14) and `proc` (C15). -/
 
 def main (args : List String) : IO UInt32 :=
-  Drv.mainWith [] args
+  Drv.mainWith [
+    ("buf", Drv.Buf.stream),
+    ("proc", Drv.Proc.stream)
+  ] args
